@@ -1175,7 +1175,20 @@ func (r *run) randomOp() {
 		r.cerc(ct, u, rc, r.amount(r.balOf(r.contract[ct], r.users[u].Address()), "cerc"))
 	case k < 56: // MsgConvertDenom
 		var d int
+		// denominations of registered tokens that somebody holds
+		var held []int
+		for _, x := range append(append([]int{}, st.regd...), st.idxAl...) {
+			for i := range r.users {
+				if x != 0 && r.coinBal(r.users[i].AccAddress(), x).Sign() > 0 {
+					held = append(held, x)
+					break
+				}
+			}
+		}
 		switch c := rng.Intn(20); {
+		case c < 10 && len(held) > 0:
+			d = held[rng.Intn(len(held))]
+			r.out.Count("cden:denom:held-by-a-user")
 		case c < 8:
 			d = pick(rng, st.regd, 1)
 			r.out.Count("cden:denom:registered-base")
@@ -1187,11 +1200,28 @@ func (r *run) randomOp() {
 			r.out.Count("cden:denom:any-alias")
 		}
 		t := rng.Intn(4) - 1
+		if d >= 100 && t == d%10%3 && rng.Intn(5) != 0 {
+			t = -1 // mostly a target other than the chain the coin already is on
+		}
 		u = holder(func(i int) *big.Int { return r.coinBal(r.users[i].AccAddress(), d) })
 		lim := r.coinBal(r.users[u].AccAddress(), d)
 		if rng.Intn(3) == 0 {
-			// the module's escrow of the base denomination of the family bounds alias -> base of a module-owned token
-			lim = r.coinBal(bx.ModuleAddr(erc20types.ModuleName), pick(rng, st.regd, 1))
+			// what the module holds of the target denomination bounds the conversions it pays out of its escrow
+			fam := d
+			if b, ok := r.w.S.App.Erc20Keeper.GetAliasDenom(r.ctx(), denomName(d)); ok {
+				fam = denomID(b)
+			}
+			tgt := fam
+			for _, a := range st.aliases[fam] {
+				if t >= 0 && a >= 100 && a%10%3 == t {
+					tgt = a
+					break
+				}
+			}
+			if e := r.coinBal(bx.ModuleAddr(erc20types.ModuleName), tgt); e.Sign() > 0 && e.Cmp(lim) < 0 {
+				lim = e
+				r.out.Count("cden:limit=module-escrow-of-target")
+			}
 		}
 		r.cden(d, u, rc, r.amount(lim, "cden"), t)
 	case k < 62: // registrations
@@ -1277,7 +1307,7 @@ func (r *run) randomOp() {
 		r.upalias(d, a)
 	case k < 91: // coins appear (bridge deposits, mint): any tracked denomination
 		d := coinIDs[1+rng.Intn(len(coinIDs)-1)]
-		if rng.Intn(2) == 0 {
+		if rng.Intn(4) != 0 {
 			d = pick(rng, append(append([]int{}, st.idxAl...), st.regd...), d)
 		}
 		if d == 0 {
